@@ -24,6 +24,7 @@ RULE = (
     "was started; the submission reaches completion; a transient sbatch failure does not duplicate a batch. "
     "non-trivial = >= 1 lost batch with a dependent job outside it, or a cycle; distinct by hash of the case"
 )
+RULE += " Later additions (DESIGN.md 9): " + "additional fault: a node's runner dies by itself (I/O error while recording one job's completion: the job left a dangling link in its output directory); one operator command bound to the end of a batch."
 ASSUMPTIONS = C.WORLD_ASSUMPTIONS + [
     "a failed sbatch does not enqueue the batch (no 'SLURM lied' faults)",
     "a killed node dies at a scheduling point (lock operation, external command, sleep); its job processes die with it",
